@@ -131,6 +131,14 @@ func runC10(c *runCtx) {
 		}
 		c.c10Case(kind, x, 0)
 		c.c10Case(kind, x, uint32(len(x)+1))
+		if it%3 == 0 {
+			// the same object written on one line, with line breaks around it only (one line of a line-oriented format
+			// to a careless reader, still a single document)
+			flat, _ := render(ms, 0)
+			for _, sur := range [][2]string{{"\n", ""}, {"", "\n\n"}, {"\r\n", "\r\n"}, {"\n\n", "\n"}, {" \n", "\n \n"}} {
+				c.c10Case(kind, []byte(sur[0]+flat+sur[1]), 0)
+			}
+		}
 		if pos >= 0 && pos < len(ends) {
 			// cut right after the deciding member's value, and somewhere later
 			c.c10Case("cut", x, uint32(ends[pos]))
